@@ -175,7 +175,8 @@ class Ctx:
 
     def gv(self, sub, extra=(), timeout=3000):
         cmd = [GV, sub, "--seed", str(self.seed), "--tier", self.tier, "--out", self.run_dir] + list(extra)
-        env = dict(ENV, GV_SCRATCH=os.path.join(CACHE, "scratch"))
+        env = dict(ENV, GV_SCRATCH=os.path.join(CACHE, "scratch"), GV_VERIF=VERIF,
+                   GV_REPO=os.environ.get("GV_REPO", "/repo"))
         p = subprocess.run(cmd, env=env, stdout=subprocess.PIPE, stderr=subprocess.STDOUT, text=True, timeout=timeout)
         if p.returncode != 0:
             self.broken_ties.append((f"harness gv {sub}", p.stdout[-2000:]))
